@@ -108,6 +108,10 @@ def run(f, fixture, rep, cfg, tier):
                       "%s appears in %s and in %s: a package using both gets two index entries with the same tag" % (tag, name, dup))
             seen.setdefault(tag, name)
 
+    # ---- R5 signature padding (the rule lives in C01.R6: one padding function, tabulated over all 8 residues, used by writer and offsets)
+    rep.rule("R5", "the signature header is padded to an 8-byte boundary (C01.R6)")
+    rep.include("c01", f, fixture, cfg, tier, "R5", "signature header padding", only_rules={"R6"}, floor=3)
+
     # ---- R9 tag numbers ---------------------------------------------------------------------------------------
     rep.rule("R9", "tag numbers equal rpm's (rpmtag.h)")
     from tagtable import check_tag_numbers
